@@ -38,7 +38,7 @@ KERNELS = [
     {"k": "rbf"},
     {"k": "scale", "base": {"k": "rff", "samples": 6}},  # selects the random-Fourier-feature prediction strategy
 ]
-MEANS = ["zero", "constant", "linear"]
+MEANS = ["zero", "constant", "linear", "linear_nobias", "constant_constrained"]
 LIKS = ["gauss", "fixed", "fixed+learn"]
 # (parameter batch, train-x batch, test-x batch)
 BATCHES = [
